@@ -278,7 +278,23 @@ fn exec<K: Kind>(op: &WOp) -> String {
                 3 => format!("{h:*^100}"),
                 _ => format!("{h:>10.40}"),
             };
-            format!("format {:?} {} | {:?} {} | {} | {fancy}", r1, hex(&buf), r2, hex(&bb), h)
+            // Display into a caller-supplied writer that fails once its capacity is used up (a caller-side fault):
+            // Err must come back without a panic, and whatever the writer accepted is a prefix of the full text
+            let full = h.to_string();
+            let cap = match (*delta as i32).rem_euclid(4) {
+                0 => 0,
+                1 => full.len() - 1,
+                2 => (raw.first().copied().unwrap_or(0) as usize) % (full.len() + 1),
+                _ => full.len(),
+            };
+            let mut lw = LimitedWriter { cap, got: String::new(), calls: 0 };
+            let lr = { use std::fmt::Write; write!(lw, "{h}") };
+            let mut lw2 = LimitedWriter { cap: cap + 20, got: String::new(), calls: 0 };
+            let lr2 = { use std::fmt::Write; write!(lw2, "{h:>90}") };
+            if !full.starts_with(&lw.got) || (lr.is_ok() && lw.got != full) || (lr.is_err() && cap >= full.len()) || lw2.got.trim_start() != &full[..lw2.got.trim_start().len()] {
+                panic!("SIM-ORACLE display-to-failing-writer: capacity {cap}, result {lr:?}, accepted `{}` / `{}`, full text `{full}`", lw.got, lw2.got);
+            }
+            format!("format {:?} {} | {:?} {} | {} | {fancy} | limw {cap} {lr:?} {} {lr2:?} {}", r1, hex(&buf), r2, hex(&bb), h, lw.got.len(), lw2.got.len())
         }
         WOp::Compare { a, b, nolen, .. } => {
             let (Some(x), Some(y)) = (hash_of::<K>(a), hash_of::<K>(b)) else { return "compare: raw rejected".into() };
@@ -322,6 +338,23 @@ fn exec<K: Kind>(op: &WOp) -> String {
             )
         }
         WOp::StateFin { class, seed, n, o, .. } => state_fin::<K>(*class, *seed, *n, *o),
+    }
+}
+
+/// fmt::Write that refuses everything beyond `cap` bytes
+struct LimitedWriter {
+    cap: usize,
+    got: String,
+    calls: u32,
+}
+impl std::fmt::Write for LimitedWriter {
+    fn write_str(&mut self, s: &str) -> std::fmt::Result {
+        self.calls += 1;
+        if self.got.len() + s.len() > self.cap {
+            return Err(std::fmt::Error);
+        }
+        self.got.push_str(s);
+        Ok(())
     }
 }
 
